@@ -522,7 +522,17 @@ var (
 
 // mode: lint | lint-dups (--show-duplicates) | lint-minsev (--min-severity=bug) | ci (pint ci on a scratch git
 // repository whose feature branch adds the files; checkRules is the same code, entries come from GitBranchFinder)
+// c11RunBin runs pint once with a 2 min deadline; a run that overruns it (race-detector build on a busy machine, two
+// unreachable servers) is repeated once with a 10 min deadline before it is called a hang.
 func c11RunBin(bin, dir, mode string, online bool, workers, procs int, seed string, files []string) (stderr string, jsonOut string, code int, race bool, err error) {
+	stderr, jsonOut, code, race, err = c11RunBinOnce(bin, dir, mode, online, workers, procs, seed, files, 120*time.Second)
+	if err != nil && strings.Contains(err.Error(), "pint timed out") {
+		stderr, jsonOut, code, race, err = c11RunBinOnce(bin, dir, mode, online, workers, procs, seed, files, 600*time.Second)
+	}
+	return stderr, jsonOut, code, race, err
+}
+
+func c11RunBinOnce(bin, dir, mode string, online bool, workers, procs int, seed string, files []string, deadline time.Duration) (stderr string, jsonOut string, code int, race bool, err error) {
 	jpath := filepath.Join(dir, "out.json")
 	_ = os.Remove(jpath)
 	args := []string{"--no-color", "--workers", strconv.Itoa(workers)}
@@ -560,9 +570,9 @@ func c11RunBin(bin, dir, mode string, online bool, workers, procs int, seed stri
 		} else if werr != nil {
 			return "", "", 0, false, werr
 		}
-	case <-time.After(120 * time.Second):
+	case <-time.After(deadline):
 		_ = cmd.Process.Kill()
-		return "", "", 0, false, fmt.Errorf("pint timed out (workers=%d procs=%d seed=%s)", workers, procs, seed)
+		return "", "", 0, false, fmt.Errorf("pint timed out after %s (workers=%d procs=%d seed=%s)", deadline, workers, procs, seed)
 	}
 	out := eb.String()
 	race = strings.Contains(out, "WARNING: DATA RACE")
